@@ -339,6 +339,9 @@ def __contains__(a, key) -> bool:
     key = tuple(_flatten(key)) if (hasattr(key,'__iter__') or hasattr(key,'__next__')) else (key,)
     if a.isdiag:
         return key in a.struct.t or (key+key) in a.struct.t
+    nsym = a.config.sym.NSYM
+    if nsym > 0 and len(key) == a.ndim_n * nsym:  # charges are given in the order of legs, as in __getitem__
+        key = tuple(np.array(key, dtype=np.int64).reshape(a.ndim_n, nsym)[np.argsort(a.trans), :].ravel().tolist())
     return key in a.struct.t
 
 ##################################################
